@@ -29,6 +29,12 @@ def new_workspace(rng, nmods=None):
         unit = new_module(rng, ws, name, mods)
         ws["files"][f"{name}.f90"] = unit
         mods.append(name)
+    if rng.random() < 0.15:
+        # the project's own (vendored / stub) copy of a module that the server also bundles as an
+        # intrinsic one: the workspace's definition is the one the project means
+        name = rng.choice(["omp_lib", "openacc", "iso_c_binding", "ieee_arithmetic", "iso_fortran_env"])
+        ws["files"][f"{name}.f90"] = new_module(rng, ws, name, [])
+        mods.append(name)
     # a program using the last modules
     ws["files"][f"main{tag}.f90"] = new_program(rng, ws, f"main{tag}", mods)
     if rng.random() < 0.6:
